@@ -31,7 +31,12 @@ func init() {
 	execs["remove"] = func(a []Tok) string { return execSub(a, false) }
 	execs["bigraph"] = execBigraph
 	execs["equal"] = func(a []Tok) string {
-		return fmtB(graph.Equal(graph.IntGraph(a[0].Intss()), graph.IntGraph(a[1].Intss())))
+		g1 := graph.IntGraph(a[0].Intss())
+		g2 := g1 // a case naming the same graph twice passes ONE object for both parameters
+		if !sameTok(a[0], a[1]) {
+			g2 = graph.IntGraph(a[1].Intss())
+		}
+		return fmtB(graph.Equal(g1, g2))
 	}
 	execs["dots"] = func(a []Tok) string { return bytesTok(graphout.DotString(string(tokBytes(a[0])))) }
 	execs["dot"] = execDot
@@ -533,6 +538,57 @@ func genC18(w *bufio.Writer, tier string, rng *rand.Rand) {
 			if n <= 300 {
 				fmt.Fprintf(w, "scc %s 3\n", gs)
 			}
+		}
+	}
+	// long paths ending in a small random gadget (deep recursion, then branching), and hubs with
+	// hundreds of distinct and repeated successors
+	for k := 0; k < pick(tier, 2, 12); k++ {
+		n := []int{70000, 66000, 140000}[k%3]
+		if !isThorough(tier) {
+			n = 70000 - k*3000
+		}
+		g := make([][]int, n+6)
+		for v := 0; v < n; v++ {
+			g[v] = []int{v + 1}
+		}
+		for v := n; v < n+6; v++ {
+			for e := 0; e < 1+rng.Intn(3); e++ {
+				g[v] = append(g[v], n+rng.Intn(6))
+			}
+		}
+		gs := fmtIntss(g)
+		fmt.Fprintf(w, "pre %s 0\npost %s 0\n", gs, gs)
+	}
+	for k := 0; k < pick(tier, 30, 600); k++ {
+		n := 70 + rng.Intn(400)
+		g := make([][]int, n)
+		hub := rng.Intn(n)
+		perm := rng.Perm(n)
+		deg := 40 + rng.Intn(n-40)
+		g[hub] = append(g[hub], perm[:deg]...)
+		for e := 0; e < 1+rng.Intn(20); e++ { // parallel edges to early, late and random successors
+			g[hub] = append(g[hub], perm[[]int{0, deg - 1, rng.Intn(deg), deg / 2, 63, 64, 65}[rng.Intn(7)]%deg])
+		}
+		for e := 0; e < n/4; e++ {
+			u := rng.Intn(n)
+			g[u] = append(g[u], rng.Intn(n))
+		}
+		gs := fmtIntss(g)
+		switch rng.Intn(4) {
+		case 0, 1:
+			fmt.Fprintf(w, "simp %s -\n", gs)
+		case 2:
+			fmt.Fprintf(w, "scc %s 3\n", gs)
+		default:
+			g2 := make([][]int, n)
+			for u := range g {
+				g2[u] = append([]int(nil), g[u]...)
+				rng.Shuffle(len(g2[u]), func(i, j int) { g2[u][i], g2[u][j] = g2[u][j], g2[u][i] })
+			}
+			if rng.Intn(2) == 0 { // same successor set, different multiplicities
+				g2[hub][len(g2[hub])-1] = g2[hub][0]
+			}
+			fmt.Fprintf(w, "equal %s %s\n", gs, fmtIntss(g2))
 		}
 	}
 	// medium structured graphs for SCC (<= 300 nodes)
